@@ -40,6 +40,8 @@ func main() {
 		i, _ := strconv.Atoi(os.Args[4])
 		n, _ := strconv.Atoi(os.Args[5])
 		run.RunShard(ck, os.Args[3], i, n, os.Args[6])
+	case "racebody":
+		os.Exit(checks.RaceBody())
 	case "confirm":
 		ck := checks.All[os.Args[2]]
 		if ck == nil {
